@@ -20,7 +20,7 @@ RULE = ("Environments of 3-8 parameters (bool, (u)int16/32/64, float32/64/128, s
         "words that look like other literals and, as a separate "
         "class, quotes / $ / backslash; a none value for the back-ends that can express it) exported through every "
         "back-end with generated options (units on/off, #define / const selections, renaming on/off, select by query "
-        "or tags); in two thirds of the cases ONE parsed environment serves all back-ends of the case, in a rotated order, "
+        "or tags, optionally after another selection on the same exporter object); in two thirds of the cases ONE parsed environment serves all back-ends of the case, in a rotated order, "
         "and the first back-end is exported once more at the end. Oracle = the format's own reader: DIP re-parse; json / yaml / toml loaders; bash 'source' + "
         "'declare -p'; generated printer programs compiled with gcc (C11 _Generic, sizeof), g++ (std::is_same on "
         "decltype), gfortran (kind(), shape()) and rustc (type_name_of_val); names by the documented mapping; values "
@@ -103,6 +103,7 @@ def env_case(draw):
             "define": define, "const": const,
             "select": draw(st.sampled_from([None, None, None, "tags", "query"])),
             "share_env": draw(st.sampled_from([True, True, False])), "rotate": draw(st.integers(0, 8)),
+            "preselect": draw(st.sampled_from([None, None, "query", "tags"])),
             "backends": draw(st.sampled_from([BACKENDS, BACKENDS, ["dip", "json", "yaml", "toml", "bash"], ["c", "cpp", "fortran", "rust"]]))}
 
 
@@ -683,10 +684,18 @@ def do_export(backend, env, case, ps_all):
     if backend in ("bash", "c", "cpp", "fortran", "rust") and not case["rename"]:
         kw["rename"] = False
     with cls(env, **kw) as exp:
+        # an earlier selection on the same exporter object must not narrow the one that counts
+        pre = case.get("preselect")
+        if pre == "tags" and case["select"] != "tags":
+            exp.select(tags=["selection"])
+        elif pre == "query" and case["select"] != "query":
+            exp.select(query=query_of(case))
         if case["select"] == "tags":
             exp.select(tags=["selection"])
         elif case["select"] == "query":
             exp.select(query=query_of(case))
+        elif pre:
+            exp.select()
         if backend in ("json", "yaml", "toml"):
             return exp.parse(units=case["units"])
         if backend == "c":
@@ -830,6 +839,8 @@ def check(case):
              for p in ps))
     v.label("env", *("be_" + b for b in case["backends"]), "rename" if case["rename"] else "norename",
             "select_" + str(case["select"]))
+    if case.get("preselect") and case.get("preselect") != case["select"]:
+        v.label("selected_twice")
     return v
 
 
@@ -882,8 +893,10 @@ def _k_quotes(case, kind, detail):
         return False
     if kind.split("-", 1)[1] not in ("value", "compile", "unreadable", "missing", "shape"):
         return False
+    # (a query selection reports names relative to the queried group: match the full path or its tail)
     return any(p["type"] == "str" and not p["shape"] and isinstance(p["val"], str) and any(c in p["val"] for c in '"\\$`\'')
-               and ".".join(p["path"]) in detail for p in case["params"])
+               and any(re.search(r"(^|[ (\n])" + re.escape(".".join(p["path"][i:])) + " str = ", detail) for i in range(len(p["path"])))
+               for p in case["params"])
 
 
 def _k_toml_key(case, kind, detail):
